@@ -144,7 +144,10 @@ def run_codec(ctx, prop, tier, seed, binp, workdir):
     violations = []
     for sig, rid in sorted(bysig.items()):
         r = recs[rid]
-        rp = write_replay(ctx, prop, seed, dict(special="codec", signature=sig, kind=r["kind"], prev=r.get("prev"), **{"in": r["in"]}, first_observed=r["obs"]))
+        # the vectors this process encoded / decoded just before (an encoder or decoder that keeps memory between calls
+        # fails only after a particular past): replayed in order when the vector alone does not reproduce
+        before = [dict(kind=recs[i]["kind"], prev=recs[i].get("prev"), **{"in": recs[i]["in"]}) for i in sorted(recs) if rid - 60 <= i < rid]
+        rp = write_replay(ctx, prop, seed, dict(special="codec", signature=sig, kind=r["kind"], prev=r.get("prev"), **{"in": r["in"]}, first_observed=r["obs"], context=before))
         if not replay(json.load(open(rp)), binp, workdir, ctx):
             raise ctx["Machinery"]("C16 counterexample %s did not reproduce (%s)" % (sig, rp))
         violations.append(dict(signature=sig, replay=rp))
@@ -156,15 +159,21 @@ def run_codec(ctx, prop, tier, seed, binp, workdir):
 
 
 def replay_codec(rp, binp, workdir, ctx):
-    inp = os.path.join(workdir, "cr.ndjson")
-    rec = {"id": 1, "kind": rp["kind"], "in": rp["in"]}
-    if rp.get("prev") is not None:
-        rec["prev"] = rp["prev"]
-    open(inp, "w").write(json.dumps(rec) + "\n")
-    obs = os.path.join(workdir, "cro.ndjson")
-    harness(ctx, binp, ["codecreplay", "-in", inp, "-out", obs], rp["seed"])
-    vs = aux_validate(ctx, "Codec", "Codec.cfg", obs, workdir)
-    return any(rp["signature"] in v["fails"] for v in vs)
+    def attempt(records):
+        inp = os.path.join(workdir, "cr.ndjson")
+        with open(inp, "w") as f:
+            for i, c in enumerate(records):
+                rec = {"id": i + 1, "kind": c["kind"], "in": c["in"]}
+                if c.get("prev") is not None:
+                    rec["prev"] = c["prev"]
+                f.write(json.dumps(rec) + "\n")
+        obs = os.path.join(workdir, "cro.ndjson")
+        harness(ctx, binp, ["codecreplay", "-in", inp, "-out", obs], rp["seed"])
+        vs = aux_validate(ctx, "Codec", "Codec.cfg", obs, workdir)
+        return any(rp["signature"] in v["fails"] for v in vs)
+    if attempt([rp]):
+        return True
+    return bool(rp.get("context")) and attempt(list(rp["context"]) + [rp])
 
 
 # ---------------------------------------------------------------------------------------------- C18
